@@ -246,6 +246,24 @@ pub fn pos_to_builder(p: &Pos) -> BoardBuilder {
     bb
 }
 
+/// the same builder state, but the en-passant file is named first (on a fresh builder, whose side to move is
+/// White by default) and the side to move last
+pub fn pos_to_builder_ep_first(p: &Pos) -> BoardBuilder {
+    let mut bb = BoardBuilder::new();
+    if p.ep >= 0 {
+        bb.en_passant(Some(File::from_index((p.ep & 7) as usize)));
+    }
+    bb.castle_rights(Color::Black, castle_rights_of(p.cr, Color::Black));
+    for i in (0..64u8).rev() {
+        if let Some((pc, c)) = letter_piece(p.sq[i as usize]) {
+            bb.piece(Square::new(i), pc, c);
+        }
+    }
+    bb.castle_rights(Color::White, castle_rights_of(p.cr, Color::White));
+    bb.side_to_move(if p.stm == b'w' { Color::White } else { Color::Black });
+    bb
+}
+
 pub fn mk_move(f: u8, t: u8, p: &str) -> ChessMove {
     let promo = match p {
         "q" => Some(Piece::Queen),
